@@ -17,6 +17,7 @@ import (
 	"gverif/engine/flagx"
 	"gverif/engine/globalx"
 	"gverif/engine/goproto"
+	"gverif/engine/idindex"
 	"gverif/engine/graphinv"
 	"gverif/engine/initx"
 	"gverif/engine/loopidx"
@@ -645,6 +646,8 @@ func dump(argv []string) {
 		res = flagx.RunGuardOperand(def, core.Pkgs(argv[1:]...))
 	case "errdrop":
 		res = decode.RunErrDrop(def, core.Pkgs(argv[1:]...))
+	case "idindex":
+		res = idindex.Run(def, core.Pkgs(argv[1:]...))
 	case "global":
 		res = globalx.Run(def, core.Pkgs(argv[1:]...), globalx.Options{})
 	case "arms":
